@@ -6,6 +6,8 @@
     hand-built variant encodings through the reference decoder and the real decoder). *)
 From FV Require Import Base.Bytes Codec.Value Codec.Enc Codec.Dec Codec.Spec.
 From FV Require Import Proofs.SpecLemmas Proofs.SpecEnc Proofs.SpecDec Proofs.SpecDecTight.
+From Coq Require Import List.
+From FV Require Import Codec.Composite Codec.CompositeSpec Gen.Composites Tie.Tie_Composites Proofs.CompositeProofs Proofs.CompositeTable.
 Open Scope N_scope.
 
 (** What the encoder writes for any well-formed value is, judged by the
@@ -48,3 +50,42 @@ Theorem C05_empty_array_with_constructor :
   (forall fuel', from_slice (S (S fuel')) bs = Ok (VList [VArray []; VBinary [1; 2]], [])).
 Proof. exact silent_misdecode_repaired. Qed.
 Print Assumptions C05_empty_array_with_constructor.
+
+(** ** composite types: field order, mandatory / default / multiple, and every layout
+
+    The table of composite types regenerated from the struct definitions of this run
+    (descriptor names and codes, fields in wire order, Option / mandatory /
+    #[amqp_contract(default)] / #[amqp_contract(multiple)]) is the specification's. *)
+Theorem C05_tie_composites : gen_composites = map erase_row spec_composites.
+Proof. exact tie_composites. Qed.
+Print Assumptions C05_tie_composites.
+
+(** Every layout of a field vector that the specification allows is accepted and
+    yields that field vector: an absent field written as null, a defaulted field
+    written out, an empty array for an absent `multiple` field, trailing absent
+    fields left out or kept, list0 / list8 / list32, the descriptor by code or by name. *)
+Theorem C05_composite_layouts_accepted :
+  forall s, In s spec_schemas ->
+  forall d vs ws fuel b rest,
+    (d = DCode (s_code s) \/ d = DName (s_name s)) ->
+    fields_ok (s_fields s) vs = true ->
+    presentation (s_fields s) vs ws = true ->
+    forallb wf ws = true -> lenN ws <= MAXCOUNT -> Forall (fun w => (depth w <= fuel)%nat) ws ->
+    enc Plain (VDescribed d (VList ws)) = Some b ->
+    dec_composite fuel s (b ++ rest) = Ok (vs, rest).
+Proof. exact table_layouts_accepted. Qed.
+Print Assumptions C05_composite_layouts_accepted.
+
+(** ... and the library's own layout is one of them *)
+Theorem C05_own_layout_is_a_presentation :
+  forall ks vs, fields_ok ks vs = true -> presentation ks vs (elide ks vs 0) = true.
+Proof. intros ks vs H. exact (presentation_elide ks vs [] [] H (Forall2_nil _)). Qed.
+Print Assumptions C05_own_layout_is_a_presentation.
+
+(** a composite whose list (or whose bytes) ends before a mandatory field is refused *)
+Theorem C05_missing_mandatory_field_refused :
+  forall fuel ks left bs,
+    (left = 0 \/ bs = []) -> existsb (fun k => match k with FMand => true | _ => false end) ks = true ->
+    exists e, dec_fields fuel ks left bs = Err e.
+Proof. exact truncated_mandatory_refused. Qed.
+Print Assumptions C05_missing_mandatory_field_refused.
